@@ -137,7 +137,13 @@ func (ctx *Ctx) resolve(err error) {
 	if !ctx.resolved {
 		select {
 		case ctx.Err <- err:
+			if verifOn {
+				vCtxResolve(ctx, err, true)
+			}
 		default:
+			if verifOn {
+				vCtxResolve(ctx, err, false)
+			}
 		}
 	}
 
@@ -189,6 +195,9 @@ var clientCtxPool = sync.Pool{
 
 func acquireCtx(req *fasthttp.Request, res *fasthttp.Response) *Ctx {
 	ctx := clientCtxPool.Get().(*Ctx)
+	if verifOn {
+		vPoolGet(vpCliCtx, ctx)
+	}
 
 	// Nothing else refers to a Ctx that came out of the pool, so these are
 	// plain writes. A resolve that landed after the last caller stopped reading
@@ -217,6 +226,9 @@ func releaseCtx(ctx *Ctx) {
 
 	ctx.conn.Store(nil)
 
+	if verifOn {
+		vPoolPut(vpCliCtx, ctx)
+	}
 	clientCtxPool.Put(ctx)
 }
 
